@@ -61,4 +61,6 @@ func init() {
 		"	if msg.Type == WSMessageTypeClose {", "	if msg.Type == WSMessageTypeClose && msg.Err.Type != errors.TypeNil {", "C14.R3.sticky")
 	mut("C14", "mock server Receive returns terminal messages of cancelled streams as data", "freighter/go/mock/stream.go",
 		"		if msg.error.Type != errors.TypeEmpty {\n			s.receiveErr = errors.Decode(s.ctx, msg.error)\n			return req, s.receiveErr\n		}", "		if msg.error.Type != errors.TypeEmpty {\n			s.receiveErr = errors.Decode(s.ctx, msg.error)\n			return req, nil\n		}", "C14.R3.sticky")
+	mut("C14", "WebSocket Receive reports a read failure without making it the terminal result", "freighter/go/http/stream.go",
+		"		c.peerCloseErr = errors.WithStack(c.peerCloseErr)\n		var i I\n		return i, c.peerCloseErr", "		var i I\n		return i, errors.WithStack(err)", "C14.R3.sticky")
 }
